@@ -21,10 +21,12 @@ func init() {
 			"(b) position sweep: representative expression/statement/declaration patterns x every slot of the context catalogue x {instance, near-misses}; (c) multiplicity and nesting: every combination of instance / near-miss / instance-in-instance / instance-in-filler over 2..3 expression holes, and every statement sequence (<=3) over instances, near-misses and instances nested in bare blocks, if/else, case clauses, loops and closures. " +
 			"(d) two-change patches in which the second change's instances lie in code the first one generated (empty lists, unwrapped arguments, emptied blocks); (b') patch files without final newline. Oracle: canonical output in the model's Allowed set (no non-instance rewritten; every mandatory site rewritten). non-trivial = the file contains an instance or the case is a near-miss of a pattern (mutant)",
 		Assumptions: []string{"a generated pattern that patch.Parse rejects is not a case (counted under not_cases)"},
-		Bounds:      func(tier string) map[string]any { return map[string]any{"constructs": len(gen.Constructs()), "stmt_seq_len": 3} },
-		NewCase:     func() any { return &MCase{} },
-		Gen:         c01Gen,
-		Setup:       cliSetup,
+		Bounds: func(tier string) map[string]any {
+			return map[string]any{"constructs": len(gen.Constructs()), "stmt_seq_len": 3}
+		},
+		NewCase: func() any { return &MCase{} },
+		Gen:     c01Gen,
+		Setup:   cliSetup,
 		Run: func(env *core.Env, ci any) core.Outcome {
 			c := ci.(*MCase)
 			if c.Then != nil {
